@@ -11,8 +11,8 @@ from harness.framework import PropCheck
 class C11(PropCheck):
     id = "C11"
     props_file = "Props/C11.v"
-    quick_cases = 330
-    thorough_cases = 4000
+    quick_cases = 260
+    thorough_cases = 3000
     shard = 40
     assumptions = [
         "states returned by QuTiP's sesolve/mesolve enter the model as oracle inputs (their probabilities as exact dyadic rationals); normalisation, positivity, the Rabi oscillation and zero-drive invariance of the INTEGRATED state are checked by running the emulator, not proved",
